@@ -182,7 +182,8 @@ def rule_c(ctx, ix):
     ctx.ob(R, f.construct, 'x, y and z are all read with the chunk slices', ok,
            detail='contains3d does not read all three coordinates with the loop\'s chunk slices: %s' % [unparse(n) for n in reads], where=where(f, lp))
     stores = [st for st in lp.body if isinstance(st, ast.Assign) and isinstance(st.targets[0], ast.Subscript)]
-    ok = len(stores) == 1 and unparse(stores[0].targets[0].slice) == var
+    from ..util import expand_locals as _xl
+    ok = len(stores) == 1 and var in (unparse(stores[0].targets[0].slice), unparse(_xl(f.node, stores[0].targets[0].slice)))
     ctx.ob(R, f.construct, 'the chunk result is stored, unconditionally, at the same slices', ok,
            detail='contains3d does not store each chunk\'s result at mask[%s] inside the loop' % var, where=where(f, lp))
     mask = unparse(stores[0].targets[0].value) if stores else None
